@@ -92,19 +92,26 @@ def _kind_of(db):
 
 
 def _ispans(spans):
-    return [[int(a), int(b)] for a, b in spans]
+    return None if spans is None else [[int(a), int(b)] for a, b in spans]
+
+
+def _oint(x):
+    return None if x is None else int(x)
 
 
 def raw_rows(db, table):
-    """rows of one table exactly as stored: the model's input"""
+    """rows of one table exactly as stored: the model's input.  A row without a location (GenBank `a^b`, remote
+    accession) has NULL start / stop / spans; only the user table has an on_alignment column"""
+    oa = ", on_alignment" if table == "user" else ""
     cur = db.db.execute(
-        f"SELECT seqid, biotype, name, strand, CAST(attributes AS TEXT) AS attrs, start, stop, spans, parent_id FROM {table}"
+        f"SELECT seqid, biotype, name, strand, CAST(attributes AS TEXT) AS attrs, start, stop, spans, parent_id{oa} FROM {table}"
     )
     out = []
     for r in cur.fetchall():
         out.append(
             dict(seqid=r["seqid"], biotype=r["biotype"], name=r["name"], strand=r["strand"], attrs=r["attrs"],
-                 start=int(r["start"]), stop=int(r["stop"]), spans=_ispans(r["spans"]), parent=r["parent_id"])
+                 start=_oint(r["start"]), stop=_oint(r["stop"]), spans=_ispans(r["spans"]), parent=r["parent_id"],
+                 on_alignment=None if not oa or r["on_alignment"] is None else bool(r["on_alignment"]))
         )
     return out
 
@@ -114,30 +121,48 @@ def db_json(db):
     return dict(kind=kind, tables={t: raw_rows(db, t) for t in db.table_names})
 
 
-def _nn(name):
-    """names made up by the loader for rows without an ID carry no information: compare them as None"""
-    return None if isinstance(name, str) and name.startswith("unknown-") else name
+def _nn(name, biotype=None):
+    """names made up by the loader for rows without an ID (GFF: unknown-<n>; GenBank features without a naming
+    qualifier: <type>-<n>) carry no information: compare them as None"""
+    if isinstance(name, str) and name.startswith("unknown-"):
+        return None
+    if biotype is not None and isinstance(name, str):
+        from .c17_gb import loader_made
+
+        if loader_made(name, biotype):
+            return None
+    return name
 
 
-def canon_feature(f, exact=False):
-    return (f["seqid"], f["biotype"], f["name"] if exact else _nn(f["name"]), f["strand"],
-            tuple(tuple(int(x) for x in s) for s in f["spans"]))
+def _tspans(spans):
+    return None if spans is None else tuple(tuple(int(x) for x in s) for s in spans)
 
 
-def canon_rec(r, attrs=False, parent=False, exact=False):
+def _ob(x):
+    return None if x is None else bool(x)
+
+
+def canon_feature(f, exact=False, oa=False):
+    t = (f["seqid"], f["biotype"], f["name"] if exact else _nn(f["name"], f["biotype"]), f["strand"], _tspans(f["spans"]))
+    return t + ((_ob(f.get("on_alignment")),) if oa else ())
+
+
+def canon_rec(r, attrs=False, parent=False, exact=False, oa=False):
     """exact=True keeps loader-made names (model-vs-real comparisons); the spec-level oracle ignores them"""
-    t = (r["seqid"], r["biotype"], r["name"] if exact else _nn(r["name"]), r["strand"],
-         tuple(tuple(int(x) for x in s) for s in r["spans"]), int(r["start"]), int(r["stop"]))
+    t = (r["seqid"], r["biotype"], r["name"] if exact else _nn(r["name"], r["biotype"]), r["strand"],
+         _tspans(r["spans"]), _oint(r["start"]), _oint(r["stop"]))
     if parent:
         t += (r.get("parent") if "parent" in r else r.get("parent_id"),)
+    if oa:
+        t += (_ob(r.get("on_alignment")),)
     return t + ((r.get("attrs"),) if attrs else ())
 
 
-def real_query(db, q, records=False):
+def real_query(db, q, records=False, oa=False):
     kw = {k: v for k, v in q.items() if v is not None}
     if records:
-        return srt(canon_rec(r) for r in db.get_records_matching(**kw))
-    return srt(canon_feature(f) for f in db.get_features_matching(**kw))
+        return srt(canon_rec(r, oa=oa) for r in db.get_records_matching(**kw))
+    return srt(canon_feature(f, oa=oa) for f in db.get_features_matching(**kw))
 
 
 def sql_like(pattern, text):
@@ -361,6 +386,31 @@ def build_case(rng, kind, how, n):
             intent += it
             idless.append(sum(1 for w in rows if w["id"] is None))
         return dict(kind="gff", how="gffglob", texts=texts, idless=idless, intent=[_clean(r) for r in intent])
+    if how in ("gbft", "gbdirect"):
+        # a GenBank feature table with every kind of location (see c17_gb), through the flat-file parser (gbft: one
+        # file per LOCUS or one multi-record file) or handed to GenbankAnnotationDb(data=...) / add_records directly
+        from . import c17_gb
+
+        feats = c17_gb.gen_features(rng, n, rng.choice([SEQIDS[:1], SEQIDS[:2], SEQIDS[:3]]), BIOTYPES, NAMES, TOKENS)
+        groups = c17_gb.by_seqid(feats)
+        intent = [_clean(r) for _, fs in groups for r in c17_gb.intent_of(fs)]
+        case = dict(kind="genbank", how=how, oa=True, intent=intent)
+        if how == "gbft":
+            texts = [[sid, c17_gb.feature_table_text(rng, sid, fs)] for sid, fs in groups]
+            if rng.random() < 0.4 and texts:
+                texts = [["multi", "".join(t for _, t in texts)]]
+            case["texts"] = texts
+        else:
+            case["groups"] = [[sid, fs] for sid, fs in groups]
+        return case
+    if how == "union":
+        # the union of a user-only db (alignment features included) with a file-based one, either way round
+        a = with_user_calls(rng, build_case(rng, "basic", "add", max(1, n // 2)), 2)
+        b = _one_block(build_case(rng, *rng.choice([("gff", "gff"), ("genbank", "gb"), ("genbank", "gbft")]), n))
+        b = with_user_calls(rng, b, rng.choice([0, 1]))
+        parts = [a, b] if rng.random() < 0.5 else [b, a]
+        return dict(kind=b["kind"], how="union", oa=True, parts=parts,
+                    intent=[_oa_intent(r, c) for c in parts for r in c["intent"]])
     recs = gen_intent(rng, n, "add" if how == "add" else "gb")
     if how == "add":
         calls = []
@@ -383,6 +433,34 @@ def build_case(rng, kind, how, n):
     return dict(kind="genbank", how=how, texts=texts, intent=intent)
 
 
+def _oa_intent(r, case):
+    """records put in through add_feature without an on_alignment argument are NOT alignment features; records loaded
+    from GFF / GenBank text have no such attribute"""
+    if "on_alignment" in r:
+        return r
+    return dict(r, on_alignment=False if case["how"] == "add" else None)
+
+
+def with_user_calls(rng, case, n):
+    """the same case with n user-added records on top (add_feature after loading; on_alignment True / False / default),
+    half of them sharing seqid / biotype / extent with a record already there"""
+    from . import c17_gb
+
+    calls, intent = c17_gb.gen_user_calls(rng, n, SEQIDS[:3], BIOTYPES, NAMES, TOKENS, like=case["intent"])
+    case = dict(case, oa=True, intent=[_oa_intent(r, case) for r in case["intent"]] + [_clean(r) for r in intent])
+    case["user_calls"] = list(case.get("user_calls", [])) + calls
+    return case
+
+
+def with_on_alignment(rng, qs):
+    """every query x a random non-empty subset of on_alignment in {not passed, False, True}"""
+    out = []
+    for q in qs:
+        for v in rng.choice([[None, False], [False, True], [None, False, True], [False], [True, None]]):
+            out.append(q if v is None else dict(q, on_alignment=v))
+    return out
+
+
 def _one_block(case):
     """block-splitting of GFF loads is probed by run_case; everything else loads the file in one block"""
     if case["how"] == "gff":
@@ -391,12 +469,38 @@ def _one_block(case):
 
 
 def _clean(r):
-    return {k: r.get(k) for k in ("seqid", "biotype", "name", "strand", "attrs", "spans", "start", "stop", "parent")}
+    d = {k: r.get(k) for k in ("seqid", "biotype", "name", "strand", "attrs", "spans", "start", "stop", "parent")}
+    if "on_alignment" in r:
+        d["on_alignment"] = r["on_alignment"]
+    return d
 
 
 def build_db(case, scratch: Path, tag="x"):
+    db = _build_db(case, scratch, tag)
+    for c in case.get("user_calls", []):
+        db.add_feature(**c)
+    return db
+
+
+def _build_db(case, scratch: Path, tag="x"):
     from cogent3.core.annotation_db import load_annotations
 
+    if case["how"] == "union":
+        a, b = (build_db(c, scratch, f"{tag}_u{i}") for i, c in enumerate(case["parts"]))
+        return a.union(b)
+    if case["how"] == "gbdirect":
+        from . import c17_gb
+
+        db = None
+        for i, (sid, feats) in enumerate(case["groups"]):
+            recs = c17_gb.direct_records(feats)
+            if db is None:
+                db = _cls("genbank")(data=recs, seqid=sid)
+            elif i % 2:
+                db.add_records(recs, sid)
+            else:
+                db = _cls("genbank")(data=recs, seqid=sid, db=db)
+        return db if db is not None else _cls("genbank")()
     if case["how"] == "add":
         db = _cls(case["kind"])()
         for c in case["calls"]:
@@ -442,6 +546,12 @@ def col_match(q, v):
 
 
 def oracle_match(r, q):
+    # on_alignment=True: alignment features only; False: everything that is not an alignment feature
+    oa = q.get("on_alignment")
+    if oa is True and r.get("on_alignment") is not True:
+        return False
+    if oa is False and r.get("on_alignment") is True:
+        return False
     for c in ("seqid", "biotype", "name", "strand"):
         if q.get(c) is not None and not col_match(q[c], r[c]):
             return False
@@ -452,6 +562,9 @@ def oracle_match(r, q):
             return False
     a, b = q.get("start"), q.get("stop")
     s, e = r["start"], r["stop"]
+    if s is None:
+        # a record without coordinates lies in / overlaps / contains nothing
+        return a is None and b is None
     if a is not None and b is not None:
         return (s < b and a < e) if q.get("allow_partial") else (a <= s and e <= b)
     if a is not None:
@@ -466,7 +579,7 @@ def oracle_select(recs, q):
 
 
 def lattice(recs):
-    edges = sorted({r["start"] for r in recs} | {r["stop"] for r in recs})
+    edges = sorted({r["start"] for r in recs if r["start"] is not None} | {r["stop"] for r in recs if r["stop"] is not None})
     return sorted({x for e in edges for x in (e - 1, e, e + 1) if x >= 0})
 
 
@@ -499,7 +612,7 @@ def gen_queries(rng, recs, n_windows):
                 else:
                     base[c] = rng.choice(vocab[c])
             a, b = rng.choice(pairs) if pairs else (0, 1)
-            if src is not None and rng.random() < 0.6:
+            if src is not None and src["start"] is not None and rng.random() < 0.6:
                 a = max(0, src["start"] + rng.choice([-1, 0, 1]))
                 b = src["stop"] + rng.choice([-1, 0, 1])
                 if a >= b:
@@ -534,6 +647,8 @@ def q_cols(q):
 def _count_distinct_check(db, intent, rng, src, case, fails):
     import collections
 
+    from . import c17_gb
+
     probes = [dict(seqid=True), dict(biotype=True), dict(seqid=True, biotype=True), dict(name=True, seqid=True)]
     if intent:
         r = rng.choice(intent) if rng is not None else intent[0]
@@ -543,8 +658,9 @@ def _count_distinct_check(db, intent, rng, src, case, fails):
             tbl = db.count_distinct(**flags)
             header = list(tbl.header)
             got = collections.Counter()
+            nm = lambda v: None if src.startswith("genbank") and isinstance(v, str) and c17_gb._FAKE.match(v) else _nn(v)
             for row in tbl.to_list():
-                key = tuple(_nn(v) if h == "name" else v for h, v in zip(header[:-1], row[:-1]))
+                key = tuple(nm(v) if h == "name" else v for h, v in zip(header[:-1], row[:-1]))
                 got[key] += int(row[-1])
             cols = header[:-1]
         except Exception as e:  # noqa: BLE001
@@ -559,20 +675,34 @@ def _count_distinct_check(db, intent, rng, src, case, fails):
                           sorted(got.items(), key=repr), f"count_distinct:{src}:{'+'.join(sorted(flags))}"))
 
 
-def run_case(case, scratch, out=None, rng=None, n_windows=60, queries=None, tag="case"):
+NO_LOCATION = "'NoneType' object is not iterable"
+NO_OA_COLUMN = "no such column: on_alignment"
+
+
+def q_sig(q):
+    oa = q.get("on_alignment")
+    return f"{q_mode(q)}:{q_cols(q)}" + ("" if oa is None else f":on_alignment={oa}")
+
+
+def _two_tables(db):
+    return len(db.table_names) > 1
+
+
+def run_case(case, scratch, out=None, rng=None, n_windows=60, queries=None, tag="case", family=None):
     """returns list of failure tuples (what, input, expected, got, sig)"""
     fails = []
     src = f"{case['kind']}:{case['how']}"
+    oa_queries, oa = bool(case.get("oa")), True  # on_alignment is always compared; only some cases pass it as an argument
     try:
         db = build_db(case, scratch, tag)
     except Exception as e:  # noqa: BLE001
         return [("building the db raised", dict(case=case), "a db", repr(e), f"build-raised:{src}:{type(e).__name__}")]
-    intent = case["intent"]
+    intent = [_oa_intent(r, case) for r in case["intent"]]
     # (1) the stored record list is what was put in (loader-made names of ID-less rows are not compared)
     stored = [r for t in db.table_names for r in raw_rows(db, t)]
     with_parent = case["how"] in ("gff", "gffglob")
-    got = srt(canon_rec(r, parent=with_parent) for r in stored)
-    want = srt(canon_rec(r, parent=with_parent) for r in intent)
+    got = srt(canon_rec(r, parent=with_parent, oa=oa) for r in stored)
+    want = srt(canon_rec(r, parent=with_parent, oa=oa) for r in intent)
     if got != want:
         if case["how"] == "gffglob":
             # narrow class: ID-less rows in >= 2 of the files, records were LOST, and every record with a real ID is
@@ -597,10 +727,14 @@ def run_case(case, scratch, out=None, rng=None, n_windows=60, queries=None, tag=
         _count_distinct_check(db, intent, rng, src, case, fails)
     if queries is None:
         queries = gen_queries(rng, intent, n_windows)
+        if oa_queries:
+            queries = with_on_alignment(rng, queries)
     for q in queries:
-        want = srt(canon_feature(r) for r in oracle_select(intent, q))
+        sel = oracle_select(intent, q)
+        want = srt(canon_feature(r, oa=oa) for r in sel)
+        locless = any(r["start"] is None for r in sel)
         try:
-            got = real_query(db, q)
+            got = real_query(db, q, oa=oa)
         except Exception as e:  # noqa: BLE001
             got = f"raised {type(e).__name__}: {e}"
         if out is not None:
@@ -608,34 +742,45 @@ def run_case(case, scratch, out=None, rng=None, n_windows=60, queries=None, tag=
             bump(out, "window_mode", q_mode(q))
             bump(out, "n_cols", sum(q.get(c) is not None for c in COLS))
             bump(out, "result_size", min(len(want), 5))
+            if oa_queries:
+                bump(out, "on_alignment_arg", f"{q.get('on_alignment')}:{'two-table' if _two_tables(db) else 'user-only'}")
+            if locless:
+                bump(out, "selects_record_without_location")
             if any(isinstance(q.get(c), str) and "%" in q[c] for c in COLS[:3]):
                 bump(out, "wildcard_queries")
             if want and len(want) < len(intent):
                 out["nontrivial"].add((src, json.dumps(case["intent"])[:200], json.dumps(q, sort_keys=True)))
         if got != want:
-            fails.append((
-                "get_features_matching differs from the linear scan", dict(case=case, query=q), want, got,
-                f"query:{src}:{q_mode(q)}:{q_cols(q)}",
-            ))
-            continue
+            sig = f"query:{src}:{q_sig(q)}"
+            if locless and isinstance(got, str) and got.startswith("raised TypeError") and NO_LOCATION in got:
+                # one narrow class: the scan selects a record that has no location, and building the feature dict of
+                # that row raises (get_records_matching is compared below all the same)
+                sig = "no-location:get_features_matching:raises:TypeError"
+            fails.append(("get_features_matching differs from the linear scan", dict(case=case, query=q), want, got, sig))
+            if not sig.startswith("no-location"):
+                continue
         # the three query interfaces must agree with the scan (and so with each other)
-        wantr = srt(canon_rec(r) for r in oracle_select(intent, q))
+        wantr = srt(canon_rec(r, oa=oa) for r in sel)
         try:
-            gotr = real_query(db, q, records=True)
+            gotr = real_query(db, q, records=True, oa=oa)
         except Exception as e:  # noqa: BLE001
             gotr = f"raised {type(e).__name__}: {e}"
         if gotr != wantr:
-            fails.append(("get_records_matching differs from the linear scan", dict(case=case, query=q), wantr, gotr,
-                          f"records:{src}:{q_mode(q)}:{q_cols(q)}"))
+            sig = f"records:{src}:{q_sig(q)}"
+            if q.get("on_alignment") is False and _two_tables(db) and isinstance(gotr, str) and NO_OA_COLUMN in gotr:
+                sig = "on_alignment:get_records_matching:two-table:no-such-column"
+            fails.append(("get_records_matching differs from the linear scan", dict(case=case, query=q), wantr, gotr, sig))
         if q_mode(q) == "none":
             kw = {k: v for k, v in q.items() if v is not None and k != "allow_partial"}
             try:
                 n = db.num_matches(**kw)
             except Exception as e:  # noqa: BLE001
-                n = f"raised {type(e).__name__}"
-            if n != len(want):
-                sig = f"num_matches:{src}:{q_cols(q)}"
-                if "attributes" in kw:
+                n = f"raised {type(e).__name__}: {e}"
+            if n != len(sel):
+                sig = f"num_matches:{src}:{q_cols(q)}" + ("" if q.get("on_alignment") is None else f":on_alignment={q['on_alignment']}")
+                if q.get("on_alignment") is not None and _two_tables(db) and isinstance(n, str) and NO_OA_COLUMN in n:
+                    sig = "on_alignment:num_matches:two-table:no-such-column"
+                elif "attributes" in kw:
                     # one narrow class: the count is exactly what results when `attributes` alone is compared with
                     # `=` / the caller's own % pattern instead of the substring search of the query methods (all
                     # other columns still right).  Anything else keeps the general signature.
@@ -644,7 +789,31 @@ def run_case(case, scratch, out=None, rng=None, n_windows=60, queries=None, tag=
                     n_exact = sum(1 for r in oracle_select(intent, q2) if r.get("attrs") is not None and col_match(a, r["attrs"]))
                     if n == n_exact:
                         sig = "num_matches:attributes-compared-exactly"
-                fails.append(("num_matches differs from the linear scan", dict(case=case, query=q), len(want), n, sig))
+                fails.append(("num_matches differs from the linear scan", dict(case=case, query=q), len(sel), n, sig))
+    # GenbankAnnotationDb: get_feature_children / get_feature_parent (name + coordinates) against their scans
+    if case["kind"] == "genbank" and _kind_of(db) == "genbank" and (family is not None or (out is not None and rng is not None)):
+        from . import c17_gb
+
+        probes = [family] if family is not None else c17_gb.gen_family_queries(rng, intent, 12)
+        for method, kw in probes:
+            scan = c17_gb.gb_children if method == "children" else c17_gb.gb_parent
+            want = srt(canon_feature(r, oa=True) for r in scan(intent, **kw))
+            named = [r for r in intent if r["name"] == kw["name"]]
+            try:
+                fn = db.get_feature_children if method == "children" else db.get_feature_parent
+                got = srt(canon_feature(f, oa=True) for f in fn(**kw))
+            except Exception as e:  # noqa: BLE001
+                got = f"raised {type(e).__name__}: {e}"
+            if out is not None:
+                out["evaluations"] += 1
+                bump(out, "genbank_family", f"{method}:{min(len(want), 3)}")
+                if want and len(want) < len(intent):
+                    out["nontrivial"].add((src, "family", json.dumps(case["intent"])[:200], json.dumps([method, kw], sort_keys=True)))
+            if got != want:
+                sig = f"family:{src}:{method}"
+                if any(r["start"] is None for r in named) and isinstance(got, str) and got.startswith("raised TypeError") and NO_LOCATION in got:
+                    sig = f"no-location:get_feature_{method}:raises:TypeError"
+                fails.append((f"get_feature_{method} differs from the linear scan", dict(case=case, family=[method, kw]), want, got, sig))
     return fails
 
 
@@ -721,7 +890,7 @@ _COPY_N = [0]
 def all_recs(db, attrs=True):
     out = []
     for t in db.table_names:
-        out += [canon_rec(r, attrs=attrs) for r in raw_rows(db, t)]
+        out += [canon_rec(r, attrs=attrs, oa=True) for r in raw_rows(db, t)]
     return sorted(out, key=repr)
 
 
@@ -785,6 +954,9 @@ def run_multiset_case(mc, scratch, out=None, tag="ms"):
         got = f"raised {type(e).__name__}: {e}"
         sig = sig if "sig" in locals() else f"{op[0]}:raised"
         sig += f":raises:{type(e).__name__}"
+        if isinstance(e, KeyError) and str(e) == "'spans'" and "json" in op and any(
+                r["start"] is None for c in (mc["a"], mc.get("b")) if c for r in c["intent"]):
+            sig = "no-location:to_json:raises:KeyError"  # a stored row without a location cannot be serialised
         want = want if "want" in locals() else "no exception"
     if out is not None:
         out["evaluations"] += 1
@@ -878,8 +1050,12 @@ def run_chain_case(cc, scratch, out=None, tag="ch"):
                 out["evaluations"] += 1
             if gc != want or gs != want:
                 sig = "copy:json:file-backed" if route == "json" and where(cur) == "file" else f"chain:{st[0]}:copy:{route}:{where(cur)}"
+                if route == "json" and isinstance(gc, str) and gc == "raised KeyError: 'spans'" and any(r["start"] is None for r in exp):
+                    sig = "no-location:to_json:raises:KeyError"
                 fails.append((f"{route} copy after {st[0]} does not reproduce the records (or changed the source)", dict(inp, step=n, route=route),
                               dict(copy=want, source_after=want), dict(copy=gc, source_after=gs), sig))
+                if sig.startswith("no-location:") and gs == want:
+                    continue  # the other routes and the later steps are still checked
                 return fails
     return fails
 
@@ -1027,6 +1203,48 @@ def spec_check(ctx, budget):
         bump(out, "gffglob_files_with_idless_rows", sum(1 for c in case["idless"] if c))
         bump(out, "source", "gff:gffglob")
         for what, inp, want, got, sig in run_case(case, scratch, out, rng2, n_windows=6, tag=f"gl{i}"):
+            add_failure(out, "spec", what, inp, want, got, sig=sig)
+    # GenBank feature tables with every kind of location, through the flat-file parser and through
+    # GenbankAnnotationDb(data=...) / add_records directly; every query kind, then every persistence / merge route
+    rng3 = ctx.subrng(f"specgb{budget}")
+    for i in range(8 * budget):
+        how = ["gbft", "gbdirect"][i % 2]
+        case = build_case(rng3, "genbank", how, rng3.choice([2, 3, 4, 6, 8]))
+        if rng3.random() < 0.4:
+            case = with_user_calls(rng3, case, 2)
+        bump(out, "source", f"genbank:{how}")
+        bump(out, "n_records", len(case["intent"]))
+        for r in case["intent"]:
+            bump(out, "genbank_record", "no-location" if r["start"] is None else "no-strand" if r["strand"] is None and r.get("on_alignment") is None
+                 else "one-base" if r["stop"] - r["start"] == 1 else "multi-span" if len(r["spans"]) > 1 else "plain")
+        for what, inp, want, got, sig in run_case(case, scratch, out, rng3, n_windows=15, tag=f"gb{i}"):
+            add_failure(out, "spec", what, inp, want, got, sig=sig)
+        mcs = [dict(a=case, b=None, op=["copy", route] + (["file-backed"] if rng3.random() < 0.3 else [])) for route in COPIES]
+        mcs += [dict(a=case, b=None, op=["subset", q]) for q in rng3.sample(gen_queries(rng3, case["intent"], 4), 6)]
+        b = build_case(rng3, "basic", "add", 2)
+        mcs += [dict(a=case, b=b, op=["union"]), dict(a=b, b=case, op=["union"]), dict(a=case, b=b, op=["update", None, COPIES[i % len(COPIES)]])]
+        b2 = build_case(rng3, "genbank", how, 3)
+        mcs += [dict(a=case, b=b2, op=["update", rng3.choice([None, "s1", ["s1", "S1"]])]), dict(a=b2, b=case, op=["union"])]
+        for mc in mcs:
+            for what, inp, want, got, sig in run_multiset_case(mc, scratch, out, tag=f"gm{i}"):
+                add_failure(out, "spec", what, inp, want, got, sig=sig)
+    for i in range(3 * budget):
+        cc = gen_chain_case(rng3, [("genbank", "gbft"), ("genbank", "gbdirect"), ("basic", "add"), ("genbank", "gb")])
+        for what, inp, want, got, sig in run_chain_case(cc, scratch, out, tag=f"gc{i}"):
+            add_failure(out, "spec", what, inp, want, got, sig=sig)
+    # user-added records (alignment features included) on top of every kind of db, and the on_alignment argument
+    # (not passed / False / True) crossed with every other argument subset and window mode
+    rng4 = ctx.subrng(f"specoa{budget}")
+    oa_plans = [("basic", "add"), ("gff", "gff"), ("genbank", "gb"), ("gff", "union"), ("gff", "add"), ("genbank", "gbft"),
+                ("genbank", "add"), ("genbank", "gbdirect")]
+    for i in range(8 * budget):
+        kind, how = oa_plans[i % len(oa_plans)]
+        case = _one_block(build_case(rng4, kind, how, rng4.choice([1, 2, 3, 5])))
+        if how != "union":
+            case = with_user_calls(rng4, case, rng4.choice([2, 3, 4]))
+        bump(out, "source", f"{kind}:{how}+user")
+        bump(out, "alignment_features", min(sum(1 for r in case["intent"] if r.get("on_alignment") is True), 4))
+        for what, inp, want, got, sig in run_case(case, scratch, out, rng4, n_windows=10, tag=f"oa{i}"):
             add_failure(out, "spec", what, inp, want, got, sig=sig)
     return out
 
@@ -1421,7 +1639,7 @@ def check_witness(ctx, w):
         return _first_failure(run_multiset_case(w["multiset_case"], ctx.scratch, tag="wit"))
     if w["type"] == "chain":
         return _first_failure(run_chain_case(w["chain_case"], ctx.scratch, tag="wit"))
-    return _first_failure(run_case(w["case"], ctx.scratch, queries=w.get("queries", []), tag="wit"))
+    return _first_failure(run_case(w["case"], ctx.scratch, queries=w.get("queries", []), family=w.get("family"), tag="wit"))
 
 
 def replay(ctx, data):
@@ -1432,7 +1650,7 @@ def replay(ctx, data):
     elif "multiset_case" in inp:
         fails = run_multiset_case(inp["multiset_case"], ctx.scratch, tag="rep")
     elif "case" in inp:
-        fails = run_case(inp["case"], ctx.scratch, queries=[inp["query"]] if "query" in inp else [], tag="rep")
+        fails = run_case(inp["case"], ctx.scratch, queries=[inp["query"]] if "query" in inp else [], family=inp.get("family"), tag="rep")
     else:
         return False
     for x in fails[:3]:
